@@ -1,6 +1,38 @@
-import Tyme.Driver.Enums
-import Tyme.Driver.SpecOps
+import Tyme.Driver.Util
+import Tyme.Driver.P01
+-- IMPORTS (one driver module per property group)
 open Tyme.Driver
+
+/-- first module that owns the op answers; `refused` for `some none` -/
+def execOpAll (op : String) (a : List Int) : String :=
+  let r : Option (Option String) :=
+    (P01.execOp op a)
+    -- DISPATCH-EXEC   <|> (Pxx.execOp op a)
+  match r with
+  | none => "bad-op"
+  | some none => REFUSED
+  | some (some s) => s
+
+def specOpAll (op : String) (a : List Int) : String :=
+  let r : Option (Option String) :=
+    (P01.specOp op a)
+    -- DISPATCH-SPEC   <|> (Pxx.specOp op a)
+  match r with
+  | none => "n/a"
+  | some none => REFUSED
+  | some (some s) => s
+
+def runEnumAll (name : String) (args : List String) (out : IO.FS.Stream) : Option (IO Unit) :=
+  (P01.runEnum name args out)
+  -- DISPATCH-ENUM   <|> (Pxx.runEnum name args out)
+
+def lineWith (f : String → List Int → String) (line : String) : String :=
+  match line.trimAscii.toString.splitOn " " |>.filter (· ≠ "") with
+  | [] => ""
+  | op :: rest =>
+    match parseInts rest with
+    | none => "bad-op"
+    | some a => f op a
 
 partial def execLoop (f : String → String) (inp out : IO.FS.Stream) : IO Unit := do
   let line ← inp.getLine
@@ -12,7 +44,10 @@ partial def execLoop (f : String → String) (inp out : IO.FS.Stream) : IO Unit 
 def main (args : List String) : IO UInt32 := do
   let out ← IO.getStdout
   match args with
-  | ["exec"] => execLoop execLine (← IO.getStdin) out; pure 0
-  | ["specexec"] => execLoop specLine (← IO.getStdin) out; pure 0
-  | "enum" :: name :: rest => runEnum name rest out
-  | _ => IO.eprintln "usage: tymed exec | enum <stream>"; pure 2
+  | ["exec"] => execLoop (lineWith execOpAll) (← IO.getStdin) out; pure 0
+  | ["specexec"] => execLoop (lineWith specOpAll) (← IO.getStdin) out; pure 0
+  | "enum" :: name :: rest =>
+    match runEnumAll name rest out with
+    | some act => act; pure 0
+    | none => IO.eprintln s!"unknown stream {name}"; pure 2
+  | _ => IO.eprintln "usage: tymed exec | specexec | enum <stream>"; pure 2
